@@ -1,6 +1,7 @@
 import FinProtoc.Proofs.DecSound
 import FinProtoc.Proofs.RoundTrip
 import FinProtoc.Proofs.RoundTripC
+import FinProtoc.Proofs.RoundTripM
 import FinProtoc.Props.C01
 /-!
 # C02 — decoders invert encoders and consume exactly one message
@@ -19,8 +20,13 @@ Two layers (DESIGN §8 C02):
 * `spec_roundtrip_computed` / `emitted_roundtrip_computed`: the same on the larger domain `Wire.cplainVal` that also
   admits length-of and checksum members with ANY caller value, for every registry; the decoded message equals the
   original up to those computed members (`Wire.eraseFields` overwrites them with 0 on both sides) — the "logically
-  equal message" of the property.  Match payloads are the one kind still outside the proved domain: for them the round
-  trip is evaluated per run on sampled messages (driver op `search`) and per emitted self-test (C17).
+  equal message" of the property.
+* `spec_roundtrip_full` / `emitted_roundtrip_full` (C02 at full strength): every field kind, match payloads included.
+  The domain `Wire.mVal` is "a message a sender can legitimately build": scalars within their width, strings and lists
+  within their prefix range, fixed strings that survive pad/trim, any caller value in computed members, and for every match
+  payload a key member (declared earlier in the packet) whose value selects the supplied payload packet.  For every
+  schema, every accepted emitted program, every registry, every such message and every suffix: the emitted decoder applied
+  to what the emitted encoder wrote returns the logically equal message and leaves exactly the suffix unread.
 -/
 namespace FinProtoc.Props
 open FinProtoc FinProtoc.IR FinProtoc.Conforms FinProtoc.Wire
@@ -77,6 +83,32 @@ theorem emitted_roundtrip_computed (S : Schema) (P : Prog) (hE : confEnc S P = t
   obtain ⟨ds, p, hfind, hdec, her⟩ := hd fuel sfx hfuel
   exact ⟨ds, p, hfind, dec_sound S P hD fuel pkt _ ds sfx hdec, her⟩
 
+/-- the declared round trip, every field kind -/
+theorem spec_roundtrip_full (S : Schema) (reg : Registry) (pkt : String) (vs : List Val) (acc r : Bytes)
+    (hp : Wire.mVal S [] [] false (.obj pkt) (.struct vs) = true) (h : Wire.enc S reg pkt vs acc = some r) :
+    ∃ xs, r = acc ++ xs ∧ ∀ fuel sfx, depthList vs < fuel →
+      ∃ ds p, S.find pkt = some p ∧ Wire.dec S fuel pkt (xs ++ sfx) = some (ds, sfx) ∧
+        Wire.eraseFields S p.fields ds = Wire.eraseFields S p.fields vs :=
+  Wire.dec_enc_full S reg pkt vs acc r hp h
+
+/-- C02: an accepted emitted program decodes what it encoded, consumes exactly that message, and returns the logically
+equal message — for every legitimately built message of every field kind, every registry, every trailing bytes -/
+theorem emitted_roundtrip_full (S : Schema) (P : Prog) (hE : confEnc S P = true) (hD : confDec S P = true)
+    (reg : Registry) (pkt : String) (vs : List Val) (bs : Bytes)
+    (hp : Wire.mVal S [] [] false (.obj pkt) (.struct vs) = true)
+    (hsafe : lenSafeVal S (.obj pkt) (.struct vs) = true)
+    (hwire : Wire.enc S reg pkt vs [] = some bs) (fuel : Nat) (hfuel : depthList vs < fuel) :
+    encStruct P reg fuel pkt vs [] = some bs ∧
+      ∀ sfx, ∃ ds p, S.find pkt = some p ∧ decStruct P fuel pkt (bs ++ sfx) = some (ds, sfx) ∧
+        Wire.eraseFields S p.fields ds = Wire.eraseFields S p.fields vs := by
+  refine ⟨enc_sound S P hE reg pkt vs [] bs hsafe hwire fuel hfuel, ?_⟩
+  intro sfx
+  obtain ⟨xs, hx, hd⟩ := Wire.dec_enc_full S reg pkt vs [] bs hp hwire
+  simp only [List.nil_append] at hx
+  subst hx
+  obtain ⟨ds, p, hfind, hdec, her⟩ := hd fuel sfx hfuel
+  exact ⟨ds, p, hfind, dec_sound S P hD fuel pkt _ ds sfx hdec, her⟩
+
 /-- C03 (decoder half): two accepted programs decode alike wherever the declared decoder is defined. -/
 theorem dec_agree (S : Schema) (P₁ P₂ : Prog) (h₁ : confDec S P₁ = true) (h₂ : confDec S P₂ = true)
     (fuel : Nat) (pkt : String) (bs : Bytes) (vs : List Val) (rest : Bytes)
@@ -103,5 +135,9 @@ example : (decStruct exPD 3 "Msg" (exBytes ++ [0xAB])).map (fun x => (beqList x.
 
 -- non-vacuity of the round trip: the Logon payload of the example is a plain message
 example : Wire.plainVal exS (.obj "Logon") (.struct [.str [65, 66], .list [.str [104, 105], .str []]]) = true := by decide
+
+-- non-vacuity of the full round trip: the message of C01 (match payload selected by Kind = 1, a length member holding the
+-- caller's 999, a checksum member) is in the domain
+example : Wire.mVal exS [] [] false (.obj "Msg") (.struct exV) = true := by decide
 
 end FinProtoc.Props
